@@ -490,3 +490,5 @@ def run(ctx):
     if not bad8:
         ctx.holds("C20.R8", f"{len(helpers)} generator functions examined, {seen8} context-dependent Decimal calls, all with a context", g.where())
 
+    ctx.borrow("C16", {"C16.R8": "C20.R9"}, "a generated datum is valid only if validate and the writers can judge it: they run the preparer of every candidate union branch on the generated value, so a preparer that raises for a value of another branch's type makes generated data of schemas with such unions unusable")
+
